@@ -47,7 +47,7 @@ MANIFEST = {
     "technique": "runtime monitoring: differential output comparison across process histories, generator interleavings, threads (yield injection) and hash seeds",
 }
 
-N_WORKLOADS = 48
+N_WORKLOADS = 56
 
 
 def plan(tier: str) -> dict:
@@ -72,6 +72,11 @@ def make_workload(seed: int, idx: int) -> dict:
     kind = ["ser-stream-frames", "ser-flat-frames", "parse-flat", "parse-grouped", "ser-sink-ns", "ser-lowlevel"][idx % 6]
     integ = "generic" if (idx // 6) % 2 == 0 else "rdflib"
     phys = [1, 2, 3][(idx // 12) % 3]
+    if idx >= 48:
+        # the caller passes NO options: whatever the integration guesses (flat/grouped frames generators, one store)
+        kind = "ser-defaults"
+        integ = "generic" if idx % 2 == 0 else "rdflib"
+        phys = [1, 2][(idx // 2) % 2]
     if kind == "ser-flat-frames" and phys == 3:
         kind = "ser-stream-frames"
     arity = 3 if phys == 1 else 4
@@ -105,6 +110,15 @@ def open_workload(w: dict, seed: int):
         conv = T.stmt_to_generic if integ == "generic" else T.stmt_to_rdflib
         options = shared_options(seed, w["slot"] * 10 + w["cfg"]["physical"], w["cfg"])
         src = (conv(s) for s in w["stmts"])
+        if w["kind"] == "ser-defaults":
+            how = w["idx"] % 3
+            if how == 0:
+                frames = mod.flat_stream_to_frames(src)                       # options=None
+            else:
+                store = pj.generic_sink_of(w["stmts"][:1 if integ == "rdflib" else None]) if integ == "generic" else \
+                    pj.rdflib_store_of(w["stmts"][:1], dataset=w["cfg"]["physical"] != 1)
+                frames = mod.grouped_stream_to_frames((x for x in [store]))   # options=None: guess_options(store)
+            return (fr.SerializeToString(deterministic=True) for fr in frames)
         if w["kind"] == "ser-lowlevel":
             # the per-statement API: one output chunk per statement, so interleavings switch in the middle of a frame
             stream = pj.make_stream({"integration": integ, "physical": w["cfg"]["physical"]}, options)
@@ -302,6 +316,17 @@ def user_extension_history(rng):
         pass
 
     kept = [EveryRowFlow, UserTripleStream, UserQuadStream, UserLookup, UserEncoder, UserRdflibEncoder]
+    # ... and it takes the library's GUESSED options as the starting point for its own configuration
+    try:
+        import rdflib
+        from pyjelly.options import LookupPreset
+        for store, mod in ((rdflib.Graph(), rser), (rdflib.Dataset(), rser), (pj.generic_sink_of([]), gser)):
+            o = mod.guess_options(store)
+            o.frame_size = rng.choice([1, 5])
+            o.lookup_preset = LookupPreset.small()
+            kept.append(o)
+    except Exception:  # noqa: BLE001
+        pass
     # ... and uses them for an unrelated stream
     try:
         from pyjelly import jelly as _j
